@@ -65,7 +65,7 @@ func workerMain() {
 }
 
 func setupSQL(c progCase) string {
-	s := udfDecl
+	s := udfDecl + tableUDFs(c)
 	for _, t := range c.Tables {
 		if t.Format == "" {
 			s += t.declareSQL()
@@ -162,6 +162,9 @@ func execCase(c progCase, dir string) (res wres) {
 						r.Msg = r.Msg[:300]
 					}
 					s.Tx.SelectedViews = nil
+					if c.KeepGoing {
+						continue // like the interactive shell
+					}
 					return // like the CLI: the first error ends the program
 				}
 				r.Rows = s.Tx.AffectedRows
